@@ -204,6 +204,33 @@ def run_neg(sh, ctx):
 			w.write_db(d, sig_order=order, id_attr=id_attr, drop_sig_of=gi)
 			expect_load_failure(ctx, d, 'dropped-signature', dict(id_attr=id_attr, dropped=gi, n=n))
 			shutil.rmtree(d)
+		# a genome without signature whose id is a near miss of an id that IS in the file (extension, prefix, other case, trailing
+		# blank; for integer ids: equal modulo 2^8 / 2^16 / 2^32, negated): still "some genome has no signature"
+		if n >= 2:
+			a, b = rng.sample(range(n), 2)
+			orig = w.genomes[a][id_attr]
+			bid = w.genomes[b][id_attr]
+			if isinstance(bid, str):
+				cands = [('extends', bid + '7'), ('extends', bid + '0' * 5), ('prefix', bid[:-1]), ('case', bid.swapcase()), ('trailing-blank', bid + ' '), ('leading-blank', ' ' + bid), ('nul', bid + '\0x')]
+			else:
+				cands = [('mod-2^8', bid + 256), ('mod-2^16', bid + 65536), ('mod-2^32', bid + 2 ** 32), ('negated', -bid), ('mod-2^31', bid + 2 ** 31)]
+			taken = {g[id_attr] for g in w.genomes}
+			for kind, nid in cands:
+				if nid in taken or nid == '':
+					continue
+				w.genomes[a][id_attr] = nid
+				d = ctx.workdir / f'n{wi}_near_{kind}'
+				try:
+					w.write_db(d, sig_order=order, id_attr=id_attr, drop_sig_of=a)
+				except Exception as e:
+					ctx.count(f'near-miss-not-writable:{kind}')       # e.g. NUL in an HDF5 string: the harness cannot build the case
+					shutil.rmtree(d, ignore_errors=True)
+					continue
+				finally:
+					w.genomes[a][id_attr] = orig
+				expect_load_failure(ctx, d, 'near-miss-id', dict(id_attr=id_attr, kind=kind, missing_id=repr(nid), similar_id_in_file=repr(bid), n=n))
+				ctx.count(f'near-miss-id:{kind}')
+				shutil.rmtree(d)
 		# renamed id
 		d = ctx.workdir / f'n{wi}_ren'
 		orig = w.genomes[0][id_attr]
@@ -392,7 +419,7 @@ def finalize(merged, tier, seed, inconclusive):
 	c = merged['counters']
 	need = [f'id_attr:{a}' for a in ID_ATTRS] + ['order:random', 'order:reversed', 'with_unrelated_signatures', 'negative:dropped-signature', 'negative:renamed-id',
 	        'negative:id_attr-none', 'negative:id_attr-misspelt', 'negative:null-id-column', 'negative:ids-of-wrong-kind', 'negative:dir:two-gdb', 'negative:dir:no-signature-file',
-	        'directory_ok:db+h5', 'cli_commands', 'big_databases', 'interleaved_queries_on_one_database']
+	        'directory_ok:db+h5', 'cli_commands', 'big_databases', 'interleaved_queries_on_one_database', 'negative:near-miss-id']
 	for n in need:
 		if c.get(n, 0) == 0:
 			inconclusive.append(f'class never observed: {n}')
